@@ -464,6 +464,17 @@ theorem admitAll_state (r : Rules) (l : Local) (ms : List Update) :
     rw [this.2, List.getLast?_cons]
     cases ms.getLast? <;> simp [Sequencer.advance]
 
+theorem genuineRun_mem {r : Rules} {v : Venue} {c0 : Nat} {run : List Update} (h : GenuineRun r v c0 run) :
+    ∀ m ∈ run, IsGenuine r v m := by
+  induction run generalizing c0 with
+  | nil => simp
+  | cons x xs ih =>
+    intro m hm
+    simp only [List.mem_cons] at hm
+    rcases hm with hm | hm
+    · subst hm; exact ⟨_, _, h.1⟩
+    · exact ih h.2 m hm
+
 /-! ## routing: instruments on one connection are independent -/
 
 theorem lookup_setSequencer (m : List (Nat × Meta)) (sub : Nat) (sq : Sequencer) (a : Nat) :
@@ -539,5 +550,188 @@ theorem transform_other (r : Rules) (t : Transformer) (m : Update) (b : Nat) (hb
   | some im =>
     rcases transform_known (r := r) h with ⟨_, hv⟩ | ⟨_, _, hv⟩ | ⟨_, _, hv⟩ <;>
       rw [hv] <;> simp [lookup_setSequencer, hb]
+
+
+/-! ## the whole connection -/
+
+/-- Coupling invariant of a connection carrying several instruments: distinct subscriptions feed
+distinct books, and every subscribed instrument's (sequencer, book) pair is `Synced` with the
+venue of that instrument. -/
+structure ConnSynced (venues : Nat → Venue) (c : Conn) : Prop where
+  keysInj : ∀ a a' im im', c.transformer.instrumentMap.lookup a = some im →
+    c.transformer.instrumentMap.lookup a' = some im' → im.key = im'.key → a = a'
+  synced : ∀ a im, c.transformer.instrumentMap.lookup a = some im →
+    ∃ b, c.books.lookup im.key = some b ∧ Synced (venues a) ⟨im.sequencer, b⟩
+
+theorem conn_step_dead {r : Rules} {c : Conn} (m : Update) (h : c.alive = false) : c.step r m = c := by
+  simp [Conn.step, h]
+
+/-- what one message does to a live connection -/
+theorem conn_step_cases (r : Rules) (c : Conn) (m : Update) (h : c.alive = true) :
+    (c.transformer.instrumentMap.lookup m.sub = none ∧ c.step r m = c) ∨
+    (∃ im, c.transformer.instrumentMap.lookup m.sub = some im ∧
+      ((Stale r im.sequencer.lastUpdateId m ∧
+          c.step r m = ⟨⟨setSequencer c.transformer.instrumentMap m.sub im.sequencer⟩, c.books, true⟩) ∨
+       (¬ Stale r im.sequencer.lastUpdateId m ∧
+          Extends r (im.sequencer.updatesProcessed == 0) im.sequencer.lastUpdateId m ∧
+          c.step r m = ⟨⟨setSequencer c.transformer.instrumentMap m.sub (im.sequencer.advance r m)⟩,
+            managerStep c.books (.item im.key m.toEvent), true⟩) ∨
+       (¬ Stale r im.sequencer.lastUpdateId m ∧
+          ¬ Extends r (im.sequencer.updatesProcessed == 0) im.sequencer.lastUpdateId m ∧
+          c.step r m = ⟨⟨setSequencer c.transformer.instrumentMap m.sub im.sequencer⟩, c.books, false⟩))) := by
+  cases hl : c.transformer.instrumentMap.lookup m.sub with
+  | none =>
+    left
+    refine ⟨rfl, ?_⟩
+    simp [Conn.step, h, transform_unknown hl, terminate, terminated, consume, consumeOut, DataError.isTerminal]
+    cases c; simp_all
+  | some im =>
+    right
+    refine ⟨im, rfl, ?_⟩
+    rcases transform_known (r := r) hl with ⟨hs, hv⟩ | ⟨hs, he, hv⟩ | ⟨hs, he, hv⟩
+    · exact .inl ⟨hs, by simp [Conn.step, h, hv, terminate, terminated, consume]⟩
+    · exact .inr (.inl ⟨hs, he, by simp [Conn.step, h, hv, terminate, terminated, consume, consumeOut]⟩)
+    · exact .inr (.inr ⟨hs, he, by
+        simp [Conn.step, h, hv, terminate, terminated, consume, DataError.isTerminal]⟩)
+
+theorem meta_eta (im : Meta) : ({ im with sequencer := im.sequencer } : Meta) = im := rfl
+
+theorem connSynced_step {r : Rules} {venues : Nat → Venue} {c : Conn} {m : Update}
+    (hc : ConnSynced venues c)
+    (hg : ∀ im, c.transformer.instrumentMap.lookup m.sub = some im → IsGenuine r (venues m.sub) m) :
+    ConnSynced venues (c.step r m) := by
+  cases halive : c.alive with
+  | false => rw [conn_step_dead m halive]; exact hc
+  | true =>
+    rcases conn_step_cases r c m halive with ⟨_, hv⟩ | ⟨im, hl, hcase⟩
+    · rw [hv]; exact hc
+    · -- lookups after writing a sequencer back
+      have hlook : ∀ sq a, (setSequencer c.transformer.instrumentMap m.sub sq).lookup a =
+          if a = m.sub then some { im with sequencer := sq } else c.transformer.instrumentMap.lookup a := by
+        intro sq a
+        rw [lookup_setSequencer]
+        by_cases ha : a = m.sub
+        · simp [ha, hl]
+        · simp [ha]
+      -- key injectivity is preserved whatever sequencer is written
+      have hinj : ∀ sq, ∀ a a' x x', (setSequencer c.transformer.instrumentMap m.sub sq).lookup a = some x →
+          (setSequencer c.transformer.instrumentMap m.sub sq).lookup a' = some x' → x.key = x'.key → a = a' := by
+        intro sq a a' x x' h1 h2 hk
+        rw [hlook] at h1 h2
+        by_cases ha : a = m.sub <;> by_cases ha' : a' = m.sub
+        · rw [ha, ha']
+        · simp only [ha, ↓reduceIte, Option.some.injEq, ha'] at h1 h2
+          subst h1; subst ha
+          exact hc.keysInj _ _ _ _ hl h2 hk
+        · simp only [ha, ↓reduceIte, Option.some.injEq, ha'] at h1 h2
+          subst h2; subst ha'
+          exact hc.keysInj _ _ _ _ h1 hl hk
+        · simp only [ha, ↓reduceIte, ha'] at h1 h2
+          exact hc.keysInj _ _ _ _ h1 h2 hk
+      rcases hcase with ⟨_, hv⟩ | ⟨hs, he, hv⟩ | ⟨_, _, hv⟩
+      · rw [hv]
+        refine ⟨hinj _, ?_⟩
+        intro a x hx
+        simp only at hx
+        rw [hlook] at hx
+        by_cases ha : a = m.sub
+        · simp only [ha, ↓reduceIte, Option.some.injEq] at hx
+          subst hx; rw [ha]; exact hc.synced _ _ hl
+        · simp only [ha, ↓reduceIte] at hx; exact hc.synced _ _ hx
+      · rw [hv]
+        refine ⟨hinj _, ?_⟩
+        intro a x hx
+        simp only at hx ⊢
+        rw [hlook] at hx
+        by_cases ha : a = m.sub
+        · simp only [ha, ↓reduceIte, Option.some.injEq] at hx
+          subst hx
+          obtain ⟨b, hb, hsync⟩ := hc.synced _ _ hl
+          refine ⟨b.update m.toEvent, ?_, ?_⟩
+          · rw [lookup_managerStep]; simp [hb]
+          · rw [ha]; exact synced_admit (l := ⟨im.sequencer, b⟩) hsync (hg im hl) hs he
+        · simp only [ha, ↓reduceIte] at hx
+          obtain ⟨b, hb, hsync⟩ := hc.synced _ _ hx
+          have hk : x.key ≠ im.key := fun hk => ha (hc.keysInj _ _ _ _ hx hl hk)
+          exact ⟨b, by rw [lookup_managerStep]; simp [hk, hb], hsync⟩
+      · rw [hv]
+        refine ⟨hinj _, ?_⟩
+        intro a x hx
+        simp only at hx
+        rw [hlook] at hx
+        by_cases ha : a = m.sub
+        · simp only [ha, ↓reduceIte, Option.some.injEq] at hx
+          subst hx; rw [ha]; exact hc.synced _ _ hl
+        · simp only [ha, ↓reduceIte] at hx; exact hc.synced _ _ hx
+
+theorem connSynced_run {r : Rules} {venues : Nat → Venue} {c : Conn} {ms : List Update}
+    (hc : ConnSynced venues c)
+    (hg : ∀ m ∈ ms, IsGenuine r (venues m.sub) m) : ConnSynced venues (c.run r ms) := by
+  induction ms generalizing c with
+  | nil => exact hc
+  | cons m ms ih =>
+    simp only [Conn.run, List.foldl_cons]
+    exact ih (connSynced_step hc (fun _ _ => hg m (by simp))) (fun x hx => hg x (by simp [hx]))
+
+
+/-! ## per-message view = whole stream through `with_termination_on_error` -/
+
+theorem terminate_append (a b : List Out) :
+    terminate (a ++ b) = terminate a ++ (bif terminated a then [] else terminate b) := by
+  induction a with
+  | nil => simp [terminate, terminated]
+  | cons x xs ih =>
+    cases x with
+    | event k ev => simp [terminate, terminated, ih]
+    | error e =>
+      by_cases he : e.isTerminal = true
+      · simp [terminate, terminated, he]
+      · simp [terminate, terminated, he, ih]
+
+theorem terminated_append (a b : List Out) : terminated (a ++ b) = (terminated a || terminated b) := by
+  induction a with
+  | nil => simp [terminated]
+  | cons x xs ih =>
+    cases x with
+    | event k ev => simpa [terminated] using ih
+    | error e => simp [terminated, ih, Bool.or_assoc]
+
+theorem consume_append (books : Books) (a b : List Out) :
+    consume books (a ++ b) = consume (consume books a) b := by
+  simp [consume, List.foldl_append]
+
+theorem conn_run_dead (r : Rules) (c : Conn) (ms : List Update) (h : c.alive = false) : c.run r ms = c := by
+  induction ms with
+  | nil => rfl
+  | cons m ms ih => simp only [Conn.run, List.foldl_cons, conn_step_dead m h]; exact ih
+
+theorem transformer_run_cons (r : Rules) (t : Transformer) (m : Update) (ms : List Update) :
+    Transformer.run r t (m :: ms) =
+      ((Transformer.run r (t.transform r m).1 ms).1, (t.transform r m).2 ++ (Transformer.run r (t.transform r m).1 ms).2) := rfl
+
+theorem conn_run_eq_terminate (r : Rules) (c : Conn) (ms : List Update) (h : c.alive = true) :
+    (c.run r ms).books = consume c.books (terminate (Transformer.run r c.transformer ms).2) ∧
+    (c.run r ms).alive = !terminated (Transformer.run r c.transformer ms).2 := by
+  induction ms generalizing c with
+  | nil => simp [Conn.run, Transformer.run, terminate, terminated, consume, h]
+  | cons m ms ih =>
+    rw [transformer_run_cons]
+    have hstep : c.step r m = ⟨(c.transformer.transform r m).1,
+        consume c.books (terminate (c.transformer.transform r m).2), !terminated (c.transformer.transform r m).2⟩ := by
+      simp [Conn.step, h]
+    simp only [Conn.run, List.foldl_cons]
+    cases ht : terminated (c.transformer.transform r m).2 with
+    | true =>
+      have hdead : (c.step r m).alive = false := by rw [hstep]; simp [ht]
+      have := conn_run_dead r (c.step r m) ms hdead
+      simp only [Conn.run] at this
+      rw [this, terminate_append, terminated_append, ht, hstep]
+      simp [ht]
+    | false =>
+      have halive : (c.step r m).alive = true := by rw [hstep]; simp [ht]
+      have := ih (c.step r m) halive
+      simp only [Conn.run] at this
+      rw [this.1, this.2, terminate_append, terminated_append, ht, hstep]
+      simp [consume_append]
 
 end BarterModel.BinanceL2
